@@ -237,7 +237,9 @@ class ProxyProtocolV2(object):
         assert command is not None, 'Invalid proxy protocol command'
         family = cls.__families.get(data[13] & 0xf0)
         protocol = cls.__protocols.get(data[13] & 0x0f)
-        assert family is None or protocol is not None, \
+        assert family is not None or data[13] & 0xf0 == 0x00, \
+            'Invalid proxy protocol address family'
+        assert protocol is not None or data[13] == 0x00, \
             'Invalid proxy protocol transport protocol'
         addr_len = struct.unpack('!H', data[14:16])[0]
         return command, family, protocol, addr_len
